@@ -36,6 +36,10 @@ def is_2_part(instance):
     :rtype: tuple[bool, list[set] | None]
     """
     part_res = is_part(instance)
-    if part_res[0] and len(part_res[1]) == 1:
-        return part_res
+    if part_res[0]:
+        parts = part_res[1]
+        if len(parts) == 1:
+            return part_res
+        if len(parts) == 2 and set().union(*parts) == set(instance.alternatives_name):
+            return part_res
     return False, None
